@@ -28,6 +28,23 @@ Theorem C13_delete_unused_keeps_bundle : forall index blobs (ks : list string),
 Proof. exact delete_unused_keeps_bundle. Qed.
 Print Assumptions C13_delete_unused_keeps_bundle.
 
+(* both steps together: a file scanned by the index build - whatever earlier sessions did before they
+   died and whether the build was resumed - keeps every blob it has when delete-unused runs with that
+   index ... *)
+Theorem C13_purge_keeps_scanned : forall F n resume ops chunks blobs f, 0 < n -> consistent F ->
+  (forall g, In g (files_of ops) -> In g F) -> In f (files_of ops) ->
+  (forall k, In k (keys_of f) -> exists nw, In (k, nw) blobs) ->
+  forall k, In k (keys_of f) -> In k (delete_unused (index_of (last_session n resume ops chunks)) blobs).
+Proof. exact purge_keeps_scanned. Qed.
+Print Assumptions C13_purge_keeps_scanned.
+
+(* ... and a file uploaded after the index was started, all of whose blobs were written or refreshed
+   since, keeps them whatever the index holds *)
+Theorem C13_purge_keeps_newer : forall index blobs (ks : list string),
+  (forall k, In k ks -> In (k, true) blobs) -> forall k, In k ks -> In k (delete_unused index blobs).
+Proof. exact purge_keeps_newer. Qed.
+Print Assumptions C13_purge_keeps_newer.
+
 (* non-vacuity: a two-leaf file whose root was uploaded by a session that died before the leaves were *)
 Example C13_resume_example :
   let f := {| fk_root := "r"; fk_leaves := ["l1"; "l2"] |} in
